@@ -923,18 +923,31 @@ pub fn parse_query(iter: &mut Iter<'_>) -> Query {
             };
             // Nothing may follow the target, or the answer would be
             // for a different question than the one that was asked.
-            match iter.peek().cloned().unwrap() {
-                Token::Eof | Token::Newline | Token::Comment(_) => {
-                    Query::Convert(left, right, base, digits)
-                }
+            match leftover(iter) {
+                Token::Eof => Query::Convert(left, right, base, digits),
                 token => Query::Error(format!(
                     "Expected end of input after the conversion target, got {}",
                     describe(&token)
                 )),
             }
         }
-        _ => Query::Expr(left),
+        _ => match leftover(iter) {
+            Token::Eof => Query::Expr(left),
+            token => Query::Error(format!(
+                "Expected end of input, got {}",
+                describe(&token)
+            )),
+        },
     }
+}
+
+/// Skips trailing comments and line ends and returns what comes next,
+/// which is `Token::Eof` when the whole input has been read.
+fn leftover(iter: &mut Iter<'_>) -> Token {
+    while let Some(Token::Newline) | Some(Token::Comment(_)) = iter.peek() {
+        iter.next();
+    }
+    iter.peek().cloned().unwrap()
 }
 
 fn is_valid_timezone(s: &String) -> bool {
